@@ -211,7 +211,7 @@ func TestByz(t *testing.T) {
 			res.Count("fired:"+k, n)
 			nf += n
 		}
-		if nf == 0 {
+		if nf == 0 && len(sc.Z) > 0 {
 			res.Count("vacuous", 1)
 			res.Note("scenario %s (%s): no corrupted answer was delivered", sc.ID, sc.Shape)
 		}
